@@ -1,6 +1,7 @@
 package cluster
 
 import (
+	"strings"
 	"bytes"
 	"errors"
 	"fmt"
@@ -68,7 +69,10 @@ func (r *Runner) sampleCommit() {
 		// (it may be blocked handing "false" to a slow NotifyCh consumer) its
 		// LeaderCh must not still say "true". (Read once per incarnation; the
 		// end-of-run rule knows about it.)
-		if st.leaderTerm != 0 && lt == 0 && in.NotifyCh != nil && !st.peeked && in.R.State() != raft.Shutdown {
+		// (Not while a macro holds this server's main thread in a slow StoreLogs:
+		// then the cut can fall between the state change and the clean-up.)
+		slowDisk := r.busyDisk[i].Load() > w.Now()-10
+		if st.leaderTerm != 0 && lt == 0 && in.NotifyCh != nil && !st.peeked && in.R.State() != raft.Shutdown && !slowDisk {
 			st.peeked, st.peekStates = true, leadershipTransitions(in)
 			select {
 			case v := <-in.R.LeaderCh():
@@ -463,6 +467,38 @@ func (r *Runner) finalChecks() {
 			rule, sig = "R3", fmt.Sprintf("C17/R3/%s-future-stranded-by-shutdown", op.Kind)
 		}
 		w.ViolateLocked("C17", rule, sig, "%s #%d on %s invoked at %d ms is unresolved %d ms later (server state %v)", op.Kind, op.ID, op.Srv, op.InvokeMs, age, st)
+	}
+	// C20/R5: a refused Restore does nothing. A call answered with
+	// ErrAbortedByRestore while every Restore under way on that server was
+	// refused before it started (membership change uncommitted, leadership
+	// transfer in progress, not the leader) was aborted by a call that never ran.
+	for _, op := range r.Ops {
+		if !op.Done || !errors.Is(op.err, raft.ErrAbortedByRestore) {
+			continue
+		}
+		overlapping, refused := 0, 0
+		var by *ClientOp
+		for _, rec := range r.restores {
+			ro := rec.op
+			// (the caller of an aborted call may be scheduled after the caller of
+			// the Restore that aborted it: overlap is judged on the clock)
+			if ro.inst != op.inst || ro.InvokeMs > op.ReturnMs || (ro.Done && ro.ReturnMs < op.ReturnMs) {
+				continue
+			}
+			overlapping++
+			if !ro.Done || ro.err == nil {
+				continue
+			}
+			written := w.O.UserSnapshotWrittenAt(rec.state.Hash) != 0
+			msg := ro.err.Error()
+			if strings.Contains(msg, "cannot restore snapshot now") || (!written && (errors.Is(ro.err, raft.ErrNotLeader) || errors.Is(ro.err, raft.ErrLeadershipTransferInProgress))) {
+				refused++
+				by = ro
+			}
+		}
+		if overlapping > 0 && refused == overlapping {
+			w.ViolateLocked("C20", "R5", "C20/R5/refused-restore-aborted-calls-in-flight", "%s #%d on %s was answered ErrAbortedByRestore, but the only Restore under way (#%d) was refused: %q", op.Kind, op.ID, op.Srv, by.ID, by.Err)
+		}
 	}
 	// C20/R3: aborted calls leave no trace (in the final, converged state of
 	// the members of the leader's configuration)
